@@ -115,7 +115,7 @@ CoreShapes == {"css", "cssi", "js", "svg0", "svg1", "html0", "htmlC", "htmlS", "
                "gate", "gatere", "cmdin", "none", "cssH", "htmlSH", "matchS", "matchG"}
 SmallShapes == {"cssH", "htmlS", "cssG", "gatere", "matchS"}
 PairShapes == {"cssi", "svg0", "htmlS", "gate"}
-QuickShapes == {"css", "cssi", "svg0", "svg1", "htmlS", "htmlG", "svgG", "gatere", "matchS", "matchG", "cmdin", "none", "htmlCH"}
+QuickShapes == {"cssi", "svg1", "htmlS", "htmlG", "svgG", "gatere", "matchS", "matchG", "cmdin", "none", "htmlCH"}
 
 Tmpl == << 0, 0 >>                  \* cmd.Args still holds the registered template / slice base untouched
 Res(mt, v, inl, pk, ar, kids) == [mt |-> mt, v |-> v, inl |-> inl, pk |-> pk, ar |-> ar, kids |-> kids]
